@@ -115,6 +115,13 @@ class DelayEval(object):
                     return self.ev(d, v)
             raise Unsupported('name %s has %d reaching definitions' % (e.id, len(ds)))
         if isinstance(e, ast.BinOp):
+            if isinstance(e.op, ast.LShift) and isinstance(e.left, ast.Constant) and e.left.value == 1 \
+                    and type(e.left.value) is int:
+                # 1 << n  ==  2 ** n  for the non-negative integer counter
+                self.saw_pow.append((n, e.right))
+                self.exp_var_check(n, e.right)
+                f = MinOf([Lin({self.P: 1})])
+                return (f, f)
             if isinstance(e.op, ast.Pow):
                 if isinstance(e.left, ast.Constant) and e.left.value == 2:
                     self.saw_pow.append((n, e.right))
@@ -214,10 +221,10 @@ def check(run):
     need(loopvar is not None, 'connection loop target is not a simple name')
 
     # --- C16.forever
-    def is_exit_event_test(t):
-        e = t.ast
+    def exit_event_call(n, e):
+        """e (evaluated at n) is a method call on the exit event"""
         if isinstance(e, ast.Call) and isinstance(e.func, ast.Attribute):
-            base, bn = rd.origin(t, e.func.value)
+            base, bn = rd.origin(n, e.func.value)
             if isinstance(base, ast.Name) and base.id == 'exit_event':
                 return True
             # exit_event may have been re-bound from threading.Event() when None
@@ -225,10 +232,44 @@ def check(run):
                 return True
         return False
 
-    exit_tests = [t for t in g.live_nodes() if t.kind == 'test' and is_exit_event_test(t)]
+    # exit edges: branch edges whose being taken implies that a method of the exit event returned true - either the
+    # test is the call itself, or it tests a flag whose every reaching definition is such a call or a false constant
+    exit_edges = set()
+    exit_tests = []
+    wait_sites = []          # (node, call) of exit_event.wait(...) feeding an exit test
+    for t in g.live_nodes():
+        if t.kind != 'test':
+            continue
+        e = t.ast
+        neg = False
+        while isinstance(e, ast.UnaryOp) and isinstance(e.op, ast.Not):
+            e = e.operand
+            neg = not neg
+        lab = 'false' if neg else 'true'
+        if exit_event_call(t, e):
+            exit_edges.add((t, lab))
+            exit_tests.append(t)
+            if e.func.attr == 'wait':
+                wait_sites.append((t, e))
+        elif isinstance(e, ast.Name):
+            ds = rd.defs_at(t, e.id)
+            calls_ = []
+            okf = bool(ds)
+            for d in ds:
+                v = rd.value_of_def(d, e.id) if d is not g.entry else None
+                if v is not None and exit_event_call(d, v):
+                    calls_.append((d, v))
+                elif isinstance(v, ast.Constant) and not v.value:
+                    pass
+                else:
+                    okf = False
+            if okf and calls_:
+                exit_edges.add((t, lab))
+                exit_tests.append(t)
+                wait_sites += [(d, v) for (d, v) in calls_ if v.func.attr == 'wait']
 
     def skip(a, b, l):
-        return l.startswith('exc:') or (a in exit_tests and l == 'true')
+        return l.startswith('exc:') or (a, l) in exit_edges
     reach = g.reachable([g.entry], skip_edge=skip)
     R.ob('C16.forever', 'exit only through the exit event', g.exit not in reach,
          'function end is reachable without a true test on exit_event', func=FN, node=f.node,
@@ -250,7 +291,7 @@ def check(run):
                  'break leaves the connection-event loop early (events dropped / attempt abandoned)',
                  func=FN, node=n, construct='break in ' + U(loop_stmt.iter))
     # the wait argument
-    wait_tests = [t for t in exit_tests if t.ast.func.attr == 'wait']
+    wait_tests = wait_sites
 
     # --- C16.passthrough
     body_starts = succs(fornode, 'body')
@@ -304,8 +345,8 @@ def check(run):
         call, call_node = bo_call[b]
         arg = call.args[0] if call.args else (call.keywords[0].value if call.keywords else None)
         need(arg is not None, 'BackOff() called without a delay')
-        for w in wait_tests:
-            warg = w.ast.args[0] if w.ast.args else (w.ast.keywords[0].value if w.ast.keywords else None)
+        for (w, wc) in wait_tests:
+            warg = wc.args[0] if wc.args else (wc.keywords[0].value if wc.keywords else None)
             same = False
             if warg is not None:
                 if isinstance(arg, ast.Name) and isinstance(warg, ast.Name) and arg.id == warg.id:
@@ -316,7 +357,7 @@ def check(run):
                     same = (oa is ow)
             R.ob('C16.onebackoff', 'BackOff delay is the delay waited', same,
                  'BackOff(%s) but exit_event.wait(%s) - different values' % (U(arg), U(warg)),
-                 func=FN, node=w.ast)
+                 func=FN, node=wc)
         delay_defs.append((call_node, arg))
     bi = R.func('events.BackOff.__init__')
     st = [s_ for s_ in own_nodes(bi.node) if isinstance(s_, ast.Assign) and U(s_.targets[0]) == 'self.delay']
@@ -324,6 +365,11 @@ def check(run):
     R.ob('C16.onebackoff', 'BackOff reports the delay it was given', len(st) == 1 and U(st[0].value) == p0,
          'events.BackOff stores %s as its delay: the reported delay differs from the time actually waited and can leave '
          '[min_wait, max_wait]' % [U(s_.value) for s_ in st], func=bi, node=(st[0] if st else None))
+    wn = [w for (w, wc) in wait_tests]
+    okw = bool(wn) and all(all_paths_pass(g, normal_succs(b), wn, loopheads + [g.exit, fornode], skip_edge=nx) for b in backoffs)
+    R.ob('C16.onebackoff', 'every BackOff is followed by the wait', okw,
+         'after a BackOff event the next attempt (or the exit) can be reached without exit_event.wait(delay): the '
+         'announced delay is not observed', func=FN, node=backoffs[0].ast, construct='persist: wait skipped')
     R.ob('C16.onebackoff', 'the exit test waits', bool(wait_tests),
          'persist() does not wait (exit_event.wait(delay)) between attempts', func=FN, node=f.node,
          construct='persist: no exit_event.wait')
